@@ -149,15 +149,22 @@ package services
 //
 // The copy proxy: for a TCP or UDP client (as handed over by the server, see served) the backend is asked
 // for exactly once, for this client's connection; the handler opens no connection itself; bytes are
-// copied between the client's and the backend's connection only, once in each direction.
+// copied between the client's and the backend's connection only, once in each direction: the client's
+// bytes in a goroutine of its own, the backend's reply by the handler itself, so that Handle (whose return
+// closes both connections) does not return before the reply has been copied (ncopied counts the copies
+// the handler waits for).
+//@ ghost var ncopied int
 //@ func (*copyService).Handle
 //@   callcount Director.Dial: nbackend
 //@   requires served(conn)
-//@   physical 0 <= nbackend && nbackend < 1<<48
+//@   physical 0 <= nbackend && nbackend < 1<<48 && 0 <= ncopied && ncopied < 1<<48
 //@   callpre Director.Dial: a1 == caller.conn
 //@   callpre net.Dial: false
-//@   callpre Copy: (dst == conn && src != conn) || (src == conn && dst != conn)
+//@   callcount io.Copy: ncopied
+//@   callpre io.Copy: (spawned ==> src == conn && dst != conn) && (!spawned ==> dst == conn && src != conn)
 //@   ensures [dials-backend] (isUDP(conn) || network(raddr(conn)) == "tcp") ==> nbackend == old(nbackend) + 1
+//@   ensures [reply-copy-awaited] (isUDP(conn) || network(raddr(conn)) == "tcp") && ncopied == old(ncopied) ==> result != nil
+//@   ensures [one-reply-copy] ncopied <= old(ncopied) + 1
 //@   ensures [one-backend] nbackend <= old(nbackend) + 1
 //@   modifies *
 //
@@ -190,6 +197,7 @@ package services
 //@   callpre Director.Dial: a1 == caller.conn
 //@   callpre net.Dial: false
 //@   callpre http.(*Response).Write: w == caller.conn
+//@   callpre io.MultiWriter: len(writers) == 2 && writers[0] == caller.conn2 && typeis(writers[1], *bytes.Buffer)
 //@   ensures [one-backend] nbackend == old(nbackend) + 1
 //@   ensures [one-reader-client] conn.bufreaders <= 1
 //@   ensures [one-reader-backend] conn.bufreaders == 1 ==> conn2.bufreaders == 1
